@@ -12,7 +12,7 @@ TRUSTED_BASE = [
 ASSUMPTIONS = [
     "server-minted random strings never collide and cannot be guessed: they are handles named by the minting operation",
     "signatures, hashes and thumbprints are ideal (symbolic) in the model",
-    "the clock is emulated by shifting every stored timestamp; time inside server-signed JWTs is not shifted",
+    "the clock is emulated by shifting every stored timestamp (for the model this is proved equivalent to advancing its clock: Props/TieClock.v time_translation, harness_clock_equivalent); that the Go code is translation invariant as well is what the correspondence samples; time inside server-signed JWTs is not shifted",
 ]
 
 SYS = "Base Scope Types Prog Pop Token Authorize System Config"
